@@ -1308,7 +1308,7 @@ impl World {
         let mut ctx = Ctx {
             w: self, vars: vec![BTreeMap::new()], widths: Rc::new(RefCell::new(vec![])), ivar_parent: Rc::new(RefCell::new(vec![])),
             pre: vec![], ret_ty: Ty::Unit, muts: vec![], generics: generics.clone(), fuel: opts.get("fuel").cloned(),
-            self_ty: ty_name.map(|s| s.to_string()), fresh: 0, val_mode: vec![], mut_pat_binds: vec![], loop_fin: vec![], used_step: false, local_muts: vec![], used_decompress: false, used_wwrite: false, used_wflush: false, used_compress: false, used_merge: false, tuple_let: opts.contains_key("tuplelet"), pending_drops: vec![], elems: BTreeMap::new(), heads: BTreeMap::new(), views: BTreeMap::new(),
+            self_ty: ty_name.map(|s| s.to_string()), fresh: 0, val_mode: vec![], mut_pat_binds: vec![], loop_fin: vec![], used_step: false, local_muts: vec![], used_decompress: false, used_wwrite: false, used_wflush: false, used_compress: false, used_merge: false, tuple_let: opts.contains_key("tuplelet"), xcodec: opts.contains_key("xcodec"), used_xcompress: false, used_xdecompress: false, pending_drops: vec![], elems: BTreeMap::new(), heads: BTreeMap::new(), views: BTreeMap::new(),
         };
         let mut params: Vec<String> = vec![];
         let mut rebinds: Vec<String> = vec![];
@@ -1441,6 +1441,12 @@ impl World {
         }
         if used_decompress {
             text = text.replacen(&format!("def {} ", lean_name), &format!("def {} (decompress : CompressionType → List UInt8 → Option (List UInt8)) ", lean_name), 1);
+        }
+        if ctx.used_xdecompress {
+            text = text.replacen(&format!("def {} ", lean_name), &format!("def {} (xdecompress : String → List UInt8 → Option (List UInt8)) ", lean_name), 1);
+        }
+        if ctx.used_xcompress {
+            text = text.replacen(&format!("def {} ", lean_name), &format!("def {} (xcompress : String → Nat → List UInt8 → Option (List UInt8)) ", lean_name), 1);
         }
         if ctx.used_merge {
             text = text.replacen(&format!("def {} ", lean_name), &format!("def {} (merge : List UInt8 → List (List UInt8) → Except Unit Cow) ", lean_name), 1);
